@@ -209,7 +209,14 @@ impl Prop for C09 {
         if v2 {
             cfg.push_str(&format!("(defcfg concurrent-tap-hold yes chords-v2-min-idle {})\n", *r.pick(&[5u64, 5, 30])));
             cfg.push_str(&format!("(defsrc {} f g h)\n", keys.join(" ")));
-            let h_act = if vk_collide { format!("(on-press tap-vkey v{})", oscode_of(*r.pick(keys))) } else { "XX".to_string() };
+            // (tapped at once, or pressed with the key and released with it: the release then comes
+            // long after the window in which chords ignore rejected keys)
+            let h_act = if vk_collide {
+                let n = oscode_of(*r.pick(keys));
+                if r.chance(500) { format!("(on-press tap-vkey v{n})") } else { format!("(multi (on-press press-vkey v{n}) (on-release release-vkey v{n}))") }
+            } else {
+                "XX".to_string()
+            };
             cfg.push_str(&format!("(deflayer l0 {} 1 (layer-while-held l1) {h_act})\n", SINGLE_M[..nk].join(" ")));
             cfg.push_str(&format!("(deflayer l1 {} 1 _ _)\n", SINGLE_M[..nk].join(" ")));
             if vk_collide {
@@ -331,12 +338,21 @@ impl Prop for C09 {
                 // while the chord is active a non-chord key taps the colliding virtual key
                 ops.push(Op::Gap((hold / 2) as u32));
                 ops.push(Op::Press(oscode_of("h")));
-                ops.push(Op::Gap(2));
+                ops.push(Op::Gap(*r.pick(&[2u32, 2, 12, 40])));
                 ops.push(Op::Release(oscode_of("h")));
                 ops.push(Op::Gap((hold / 2) as u32));
                 case.set("vk_collide", 1);
             } else {
                 ops.push(Op::Gap(hold as u32));
+            }
+            // the layer on which some chords are disabled becomes active only now, while the chord is
+            // held: its keys are released there (a disabled chord cannot be formed, but one that is
+            // active is still released by its keys)
+            let late_disabled = use_disabled && !on_disabled && !early && r.chance(400);
+            if late_disabled {
+                ops.push(Op::Press(oscode_of("g")));
+                ops.push(Op::Gap(45));
+                case.set("late_disabled", 1);
             }
             let mut rel = set.clone();
             r.shuffle(&mut rel);
@@ -349,7 +365,7 @@ impl Prop for C09 {
                 ops.push(Op::Release(f));
                 ops.push(Op::Gap(3));
             }
-            if on_disabled {
+            if on_disabled || late_disabled {
                 ops.push(Op::Gap(20));
                 ops.push(Op::Release(oscode_of("g")));
             }
